@@ -52,7 +52,7 @@ def try_only(c):
 def serde_fns(ctx, adt_path, trait, name):
     """generated impl functions `name` of `trait` for the ADT"""
     out = []
-    for f in ctx.prog.fns.values():
+    for f in ctx.prog.units():
         if f.name != name or f.crate.name != "bourse_book":
             continue
         p = f.path
@@ -82,8 +82,8 @@ def run(ctx):
         return fs[0], tab
 
     def reader_keys(adt):
-        vs = [f for f in prog.fns.values() if f.name == "visit_str" and "__FieldVisitor" in f.path and is_for(f.path, adt)]
-        vm = [f for f in prog.fns.values() if f.name == "visit_map" and "__Visitor" in f.path and is_for(f.path, adt) and "__DeserializeWith" not in f.path]
+        vs = [f for f in prog.units() if f.name == "visit_str" and "__FieldVisitor" in f.path and is_for(f.path, adt)]
+        vm = [f for f in prog.units() if f.name == "visit_map" and "__Visitor" in f.path and is_for(f.path, adt) and "__DeserializeWith" not in f.path]
         if len(vs) != 1 or len(vm) != 1:
             ctx.lost("tables", "Deserialize visitor of %s (visit_str %d, visit_map %d)" % (adt, len(vs), len(vm)))
             return None
@@ -149,7 +149,7 @@ def run(ctx):
                       "%s variants serialised as %s" % (adt.split("::")[-1], got))
         else:
             ctx.lost("tables", "Serialize impl of " + adt)
-        vs = [f for f in prog.fns.values() if f.name == "visit_str" and "__FieldVisitor" in f.path and is_for(f.path, adt)]
+        vs = [f for f in prog.units() if f.name == "visit_str" and "__FieldVisitor" in f.path and is_for(f.path, adt)]
         if len(vs) == 1:
             ctx.check(str_consts(vs[0]) == set(vnames), "tables", "reader|" + adt.split("::")[-1], ctx.loc(vs[0]), "%s reader accepts %s" % (adt.split("::")[-1], vnames),
                       "%s reader accepts %s" % (adt.split("::")[-1], sorted(str_consts(vs[0]))))
@@ -327,7 +327,7 @@ def run(ctx):
 
     # ------------------------------------------------------------ truncation / abort freedom on the load path
     roots_f = [m.book_fn("load_json"), m.market_fn("load_json"), ld] + ds
-    for f in prog.fns.values():
+    for f in prog.units():
         if f.crate.name == "bourse_book" and "_serde::Deserialize" in f.path or (f.crate.name == "bourse_book" and "_serde::de::Visitor" in f.path):
             roots_f.append(f)
     reach = [f for f in m.w.reachable(roots_f) if f.crate.name == "bourse_book"]
